@@ -657,6 +657,9 @@ const (
 	capFilterFails    // installing the post-handshake filter fails
 	capSendFails      // the first probe cannot be written
 	capReadFails      // a read during the run fails with a non-retryable error
+	// as capAckWithoutSack, but the target is two hops away: the probe with TTL 1 is answered by a router's
+	// time-exceeded first, so the engine already holds a hop when the acknowledgement without SACK blocks arrives
+	capAckWithoutSackFar
 )
 
 var injectedCause = errors.New("injected non-capability failure")
@@ -739,6 +742,18 @@ func runTCPCase(t *testing.T, method string, capab int) (sx, sx) {
 							h.src.inject(c.synack(true, 1, 0x12), time.Time{})
 						default:
 							h.src.inject(c.synack(true, 0, 0x12), time.Time{})
+						}
+						if capab == capAckWithoutSackFar {
+							h.snk.mu.Lock()
+							h.snk.onWrite = func(p outPkt) {
+								if len(p.data) >= 28 && p.data[8] == 1 {
+									h.src.inject(te4([4]byte{10, 0, 0, 1}, lo, 11, 0, p.data[:28], nil, [4]byte{}), time.Time{})
+									return
+								}
+								seg := buildTCP4(tcpHdr{sport: uint16(dport), dport: uint16(lp), seq: cfg.initAck, ack: cfg.initSeq, flags: 0x10, win: 512}, nil, lo, lo)
+								h.src.inject(buildIP4(ip4Hdr{ttl: 60, proto: 6, src: lo, dst: lo}, seg), time.Time{})
+							}
+							h.snk.mu.Unlock()
 						}
 						if capab == capAckWithoutSack {
 							h.snk.mu.Lock()
@@ -1081,7 +1096,7 @@ func labPar(e labEnv) {
 	}
 	for k := 0; k < reps; k++ {
 		for _, m := range []string{"syn", "sack", "prefer_sack"} {
-			for capab := capSack; capab <= capReadFails; capab++ {
+			for capab := capSack; capab <= capAckWithoutSackFar; capab++ {
 				in, out := runTCPCase(e.t, m, capab)
 				w.put(in, out)
 				tags[fmt.Sprintf("tcp_run:%s:cap%d", m, capab)]++
